@@ -71,12 +71,14 @@ const (
 	idCyclic   = "C20-cyclic-data"
 	idMapOrder = "C20-map-order"
 	idSenText  = "C20-print-sen-text"
+	idCondComp = "C20-cond-compiles-plan-list"
 )
 
 type kase struct {
 	stream string
 	plan   string // tree text
 	root   string
+	root2  string // optional: another root the same *Plan is executed on after its runs on `root` (compared with a fresh plan)
 	alias  bool // the plan may store aliases: run the implementation only where the model has a verdict
 	spec   *specQ
 }
@@ -270,8 +272,10 @@ func buildCases() []kase {
 
 	r := lib.NewRng(*seed)
 	nModel, nAll, nEnum, nMal, nTriple, nFrame, nObs := 9000, 5000, 1500, 1500, 2500, 4000, 4000
+	nCpath := 1200
 	if full {
 		nModel, nAll, nEnum, nMal, nTriple, nFrame, nObs = 160000, 90000, 20000, 25000, 40000, 60000, 50000
+		nCpath = 20000
 	}
 	// frame: mutator-free plans that hand data under $.src by reference to every function in turn
 	{
@@ -317,14 +321,31 @@ func buildCases() []kase {
 		emit(kase{stream: "box3", plan: render([]any{"set", "$.asm", append([]any{f}, args...)}), root: boxRoot, alias: true,
 			spec: &specQ{fn: f, args: render(args)}})
 	}
+	// cpath: get/getall/set/setall whose PATH is computed by [root …]/[at …] from the data, evaluated more than
+	// once with different data (inside each; the same *Plan on a second, different root): the path must be
+	// formed anew on every evaluation
+	gc := &gen{r: r.Fork(8), fns: modelled, alias: false}
+	for i := 0; i < nCpath; i++ {
+		plan, root, root2 := gc.cpathCase()
+		emit(kase{stream: "cpath", plan: render(plan), root: render(root), root2: render(root2)})
+	}
+	g2 := &gen{r: r.Fork(9), fns: modelled} // second roots: a generator of their own, so that the streams stay as they were
 	gm := &gen{r: r.Fork(1), fns: modelled, alias: true, sloppy: 20}
 	for i := 0; i < nModel; i++ {
-		emit(kase{stream: "model", plan: render(gm.plan()), root: render(gm.root()), alias: true})
+		k := kase{stream: "model", plan: render(gm.plan()), root: render(gm.root()), alias: true}
+		if i%4 == 0 { // the same *Plan is also executed on a second, different root
+			k.root2 = render(g2.root())
+		}
+		emit(k)
 	}
 	all := allFunctions()
 	ga := &gen{r: r.Fork(2), fns: all, alias: false, wild: true, sloppy: 25}
 	for i := 0; i < nAll; i++ {
-		emit(kase{stream: "allfn", plan: render(ga.plan()), root: render(ga.root())})
+		k := kase{stream: "allfn", plan: render(ga.plan()), root: render(ga.root())}
+		if i%4 == 0 {
+			k.root2 = render(g2.root())
+		}
+		emit(k)
 	}
 	ge := &gen{r: r.Fork(3), fns: modelled, alias: false, enum: true, sloppy: 10}
 	for i := 0; i < nEnum; i++ {
@@ -473,6 +494,29 @@ func processBatch(d *lib.Driver, cases []kase) error {
 	if err != nil {
 		return err
 	}
+	// a plan that may store aliases meets its second root only where the model follows it to the end there too
+	{
+		var reqs2 []string
+		var at []int
+		for i, k := range cases {
+			if k.alias && k.root2 != "" {
+				reqs2 = append(reqs2, "run\t"+devArg(*dev)+"\t2\t"+k.plan+"\t"+k.root2)
+				at = append(at, i)
+			}
+		}
+		if len(reqs2) > 0 {
+			ans2, err := d.Ask(reqs2)
+			if err != nil {
+				return err
+			}
+			for j, i := range at {
+				if !modelled1(ans2[j]) {
+					cases[i].root2 = ""
+					rep.Count("skipped.second-root-outside-model", 1)
+				}
+			}
+		}
+	}
 	vs := make([]verdicts, len(cases))
 	var plans, roots []string
 	var idx []int
@@ -492,7 +536,11 @@ func processBatch(d *lib.Driver, cases []kase) error {
 		}
 		idx = append(idx, i)
 		plans = append(plans, k.plan)
-		roots = append(roots, k.root)
+		if k.root2 != "" {
+			roots = append(roots, k.root+"\t"+k.root2)
+		} else {
+			roots = append(roots, k.root)
+		}
 	}
 	outs, err := runAll(plans, roots, *nworkers, watchdog)
 	if err != nil {
@@ -509,6 +557,9 @@ func processBatch(d *lib.Driver, cases []kase) error {
 }
 
 func replayOf(k kase) map[string]any {
+	if k.root2 != "" {
+		return map[string]any{"plan": k.plan, "root": k.root, "root2": k.root2, "plan_text": show(k.plan), "root_text": show(k.root), "root2_text": show(k.root2), "stream": k.stream}
+	}
 	return map[string]any{"plan": k.plan, "root": k.root, "plan_text": show(k.plan), "root_text": show(k.root), "stream": k.stream}
 }
 
@@ -663,6 +714,31 @@ func judge(d *lib.Driver, k *kase, w WOut, v verdicts) {
 			violation(k, "nondeterministic:"+base, "two executions on equal roots differ"+order.why(), map[string]any{"run1": impl1, "run2": impl2, "fresh": fresh})
 		}
 	}
+	// (b') executing a plan does not edit the plan: Simplify()/String() read the same before and after run 1,
+	// and the same *Plan executed on ANOTHER root behaves like a freshly built plan on that root
+	if r.SimpAfter != "" && usesFn(mustTree(k.plan), map[string]bool{"cond": true}) && compiledOnly(r.Simp, r.SimpAfter) {
+		nontrivial = 1
+		addKnown(k, idCondComp, "plan-edited:cond-compile", "Plan.Simplify() after Execute holds jp.Expr values where the plan had path strings: cond compiled a call inside one of its pairs in place")
+	} else if r.SimpAfter != "" {
+		violation(k, "plan-edited:"+base, "Plan.Simplify()/String() after Execute differ from before: executing the plan rewrote the plan (a reused plan is no longer the plan that was built)",
+			map[string]any{"simp_before": r.Simp, "simp_after": r.SimpAfter, "str_before": r.Str, "str_after": r.StrAfter})
+	}
+	if r.Other != "" || r.OtherFresh != "" {
+		rep.Count("other-root."+base, 1)
+		if o, of := canonFloats(r.Other), canonFloats(r.OtherFresh); o != of {
+			// the order judge for the second root: its site test looks at the data of THAT root (the model has
+			// no verdict for it: only the structural site counts)
+			k2 := *k
+			k2.root = k.root2
+			order2 := newOrderJudge(&k2, verdicts{}, r.Other, r.OtherFresh)
+			if how := order2.explains(o, of); how != "" {
+				addKnown(k, idMapOrder, "rerun:map-order:"+how, "runs on the second root differ; "+orderWhat[how])
+			} else {
+				violation(k, "reused-plan:"+base, "the same *Plan executed on another root after its first runs differs from a freshly built plan on that root: the earlier execution changed what the plan does",
+					map[string]any{"reused": o, "fresh": of})
+			}
+		}
+	}
 	// (d) $.src changes only through the mutators
 	// — judged for every plan without a mutator, and for every plan of the streams that never store a
 	// reference to existing data whose mutators all name a target outside $.src by a literal path
@@ -678,6 +754,52 @@ func judge(d *lib.Driver, k *kase, w WOut, v verdicts) {
 	if r.StrPanic == "" && !r.Nil {
 		judgePrint(k, r, fresh, order, base)
 	}
+}
+
+// compiledOnly: two tree texts (Simplify() before and after a run) have the same shape and differ only at
+// atoms where the text of a path stands as a string before and as a jp.Expr — or, inside a nested call
+// that was compiled and is printed through Fn.Simplify, as the re-printed path string — after.
+func compiledOnly(before, after string) bool {
+	atoms := func(s string) []string {
+		var out []string
+		for i := 0; i < len(s); {
+			if i+1 < len(s) && s[i+1] == '(' {
+				e := strings.IndexByte(s[i:], ')')
+				if e < 0 {
+					return nil
+				}
+				out = append(out, s[i:i+e+1])
+				i += e + 1
+				continue
+			}
+			out = append(out, s[i:i+1])
+			i++
+		}
+		return out
+	}
+	a, b := atoms(before), atoms(after)
+	if a == nil || len(a) != len(b) {
+		return false
+	}
+	isPathText := func(atom string) bool {
+		if len(atom) < 4 || (atom[0] != 'S' && atom[0] != 'P') {
+			return false
+		}
+		t, err := unhexF(atom[2 : len(atom)-1])
+		return err == nil && t != "" && (t[0] == '$' || t[0] == '@')
+	}
+	diff := false
+	for i := range a {
+		if a[i] == b[i] {
+			continue
+		}
+		if a[i][0] == 'S' && isPathText(a[i]) && isPathText(b[i]) {
+			diff = true
+			continue
+		}
+		return false
+	}
+	return diff
 }
 
 // orderJudge decides whether differing results of one plan on equal roots are C20-map-order. Both must hold:
@@ -709,7 +831,7 @@ func okTree(run string) (any, bool) {
 	if !strings.HasPrefix(run, "ok ") {
 		return nil, false
 	}
-	v, err := parseTree(run[3:])
+	v, err := parseTreeLoose(run[3:])
 	return v, err == nil
 }
 
@@ -735,7 +857,7 @@ func newOrderJudge(k *kase, v verdicts, runs ...string) *orderJudge {
 	datas := []any{mustTree(k.root)}
 	for r := range distinct {
 		if p := strings.SplitN(r, " ", 2); len(p) == 2 && (p[0] == "ok" || p[0] == "err") {
-			if t, err := parseTree(p[1]); err == nil {
+			if t, err := parseTreeLoose(p[1]); err == nil {
 				datas = append(datas, t)
 			}
 		}
@@ -802,8 +924,8 @@ func (o *orderJudge) downstream(r1, r2 string) bool {
 	if len(p1) != 2 || len(p2) != 2 || (p1[0] != "ok" && p1[0] != "err") || (p2[0] != "ok" && p2[0] != "err") {
 		return false
 	}
-	a, e1 := parseTree(p1[1])
-	b, e2 := parseTree(p2[1])
+	a, e1 := parseTreeLoose(p1[1])
+	b, e2 := parseTreeLoose(p2[1])
 	if e1 != nil || e2 != nil {
 		return false
 	}
@@ -1109,7 +1231,8 @@ func runReplay(d *lib.Driver) {
 	plan, _ := f.Replay["plan"].(string)
 	root, _ := f.Replay["root"].(string)
 	stream, _ := f.Replay["stream"].(string)
-	k := kase{stream: stream, plan: plan, root: root, alias: true}
+	root2, _ := f.Replay["root2"].(string)
+	k := kase{stream: stream, plan: plan, root: root, root2: root2, alias: true}
 	if err := processBatch(d, []kase{k}); err != nil {
 		fmt.Fprintln(os.Stderr, err)
 		os.Exit(3)
